@@ -30,7 +30,7 @@ ASSUMPTIONS = [
     'dropped (the implementation filters them; the statement is silent)',
 ]
 ANCHORS = ['Table.subsample']
-REQUIRED = ['stress_by_id_calls', 'generate_subsamples_tables', 'seed_generator_object', 'second_call_after_inplace_edit', 'without_replacement', 'with_replacement', 'by_id',
+REQUIRED = ['reproducibility_probes_run', 'stress_by_id_calls', 'generate_subsamples_tables', 'seed_generator_object', 'second_call_after_inplace_edit', 'without_replacement', 'with_replacement', 'by_id',
             'axis_observation', 'axis_sample', 'vectors_below_n_dropped',
             'seed_reproducibility_checked', 'seed_zero_checked',
             'stat_draws', 'layout_csc_seen']
@@ -428,8 +428,46 @@ def _chi2(hist, pm):
     return stat, dof, float(chi2.sf(stat, dof)), K, impossible
 
 
+def finish(ctx):
+    """Run in every worker process (each has its own string-hash seed): the
+    same table, depth and seed must give the same subsample in all of them.
+    The digests are compared by `verdict`."""
+    import hashlib
+    r = np.random.default_rng(12345)
+    probes = {}
+    ids_o = ['otu_%s' % c for c in 'abcdefghijklmnopqrstuvwx']
+    ids_s = ['sample %d' % i for i in range(9)]
+    D = r.integers(0, 6, size=(len(ids_o), len(ids_s))).astype(float)
+    t = ctx.biom.Table(D, ids_o, ids_s)
+    for axis in ('sample', 'observation'):
+        for mode, kw in (('counts', {}), ('by_id', {'by_id': True}),
+                         ('replace', {'with_replacement': True})):
+            for seed in (0, 7, 2 ** 31 - 1):
+                n = 5 if mode != 'by_id' else 4
+                res = t.subsample(n, axis=axis, seed=seed, **kw)
+                key = '%s/%s/seed=%d' % (axis, mode, seed)
+                blob = repr(([str(i) for i in res.ids(axis='observation')],
+                             [str(i) for i in res.ids()],
+                             res.matrix_data.toarray().tolist()))
+                probes[key] = hashlib.sha256(blob.encode()).hexdigest()[:16]
+    ctx.extra['reproducibility_probes'] = probes
+    ctx.count('reproducibility_probes_run', len(probes))
+
+
 def verdict(counters, extra, tier):
     out = []
+    per_shard = extra.get('reproducibility_probes', [])
+    if per_shard:
+        ref = per_shard[0]
+        for other in per_shard[1:]:
+            diff = sorted(k for k in ref if other.get(k) != ref[k])
+            if diff:
+                out.append({'sig': 'C12/seed-not-reproducible/across-'
+                            'processes', 'message': 'the same table, depth '
+                            'and seed gave different subsamples in worker '
+                            'processes that differ only in their string-hash '
+                            'seed: %r' % (diff[:6],)})
+                break
     for cfg, hist in _merge_stat(extra).items():
         pm = exact_pmf(cfg)
         stat, dof, p, K, impossible = _chi2(hist, pm)
